@@ -362,7 +362,9 @@ Section Model.
     let d := match a_spatial_dim a with Some sd => sd + b2n (a_temporal a) | None => a_dim a end in
     if a_latlon a then 3 + b2n (a_temporal a) else d.
 
-  Definition construct (c : Cls) (a : Args) : Res State :=
+  (* everything __init__ stores before the first check_arg_bounds; with var= (not var_raw=) the raw
+     variance is var / var_factor of the values just stored *)
+  Definition build (c : Cls) (a : Args) : Res State :=
     let d := eff_dim a in
     if d <? 1 then Error EDim else
     if negb (length (a_opts a) =? length (a_bopts a)) then Error EUnknownArg else
@@ -371,7 +373,16 @@ Section Model.
                 (set_model_angles d (a_angles a) (a_latlon a) (a_temporal a)) (a_nugget a)
                 (nabs O (match a_rescale a with None => default_rescale c | Some x => x end))
                 (a_opts a) (a_bvar a) (a_blen a) (a_bnug a) (a_banis a) (a_bopts a) in
-    checked c (if a_var_is_raw a then s0 else with_var_raw s0 (ndiv O (a_var a) (var_factor c s0))).
+    Ok (if a_var_is_raw a then s0 else with_var_raw s0 (ndiv O (a_var a) (var_factor c s0))).
+  Definition construct (c : Cls) (a : Args) : Res State := s <- build c a ;; checked c s.
+
+  (* __init__ with integral_scale=ls: `self.var = var` (checked) / `_var = var_raw` (unchecked), then the
+     integral_scale setter, then the variance is assigned AGAIN (var_factor may depend on the new length
+     scale), then the final check_arg_bounds *)
+  Definition construct_int (c : Cls) (a : Args) (ls : list T) : Res State :=
+    s0 <- build c a ;;
+    if a_var_is_raw a then set_int_scale c s0 ls
+    else s0' <- checked c s0 ;; s1 <- set_int_scale c s0' ls ;; set_var c s1 (a_var a).
 
   (* the arguments that describe a state: every value as it is stored *)
   Definition args_of (s : State) : Args :=
@@ -385,6 +396,7 @@ Section Model.
            (a_len a) (a_anis a) (a_angles a) (a_nugget a) (a_rescale a) (a_opts a)
            b_pos b_pos b_nonneg b_pos (default_opt_bounds c (eff_dim a)).
   Definition ctor (c : Cls) (a : Args) : Res State := construct c (with_default_bounds c a).
+  Definition ctor_int (c : Cls) (a : Args) (ls : list T) : Res State := construct_int c (with_default_bounds c a) ls.
 
   (* operations that never look at values (documented as unchecked in the code) *)
   Definition unchecked_bounds_op (op : Op) : bool :=
